@@ -11,3 +11,5 @@ mod c01_router;
 mod c03_response;
 #[cfg(kani)]
 mod c18_shutdown;
+#[cfg(kani)]
+mod c08_decoders;
